@@ -2014,14 +2014,22 @@ def c17_checks(repo: Repo, tier: str, res: CheckResult, seed: int) -> None:
             got[names[i] if i < len(names) else f"#{i}"] = a
         for k in call.keywords:
             got[k.arg or "**"] = k.value
+        for nm_ in r.get("skipped", []):
+            if nm_ in got:
+                res.add(Finding("C17", "KIND.converter-field", MCP, "ModelCoercerProvider", f"{ident}: {nm_} <- {norm(got[nm_])[:40]}",
+                                f"converter {ident}: the unlinked optional field `{nm_}` must be left to its default but receives "
+                                f"`{norm(got[nm_])[:60]}` (`{norm(call)[:160]}`): the arguments after a skipped parameter are shifted", 0))
+        src_names = [f[0] for f in r["fields"] if f[0] not in r.get("skipped", [])]
         for nm_ in names:
+            if nm_ in r.get("skipped", []):
+                continue
             e = got.get(nm_)
             inner = e
             if isinstance(e, ast.Call) and len(e.args) == 2 and norm(e.args[1]) == "ctx":
                 inner = e.args[0]
             ok = (isinstance(inner, ast.Attribute) and norm(inner.value) == "data" and inner.attr == nm_) or (
                 isinstance(inner, ast.Subscript) and norm(inner.value) == "data" and isinstance(inner.slice, ast.Constant)
-                and (inner.slice.value == nm_ or (r["src_kind"] == "namedtuple" and inner.slice.value == names.index(nm_))))
+                and (inner.slice.value == nm_ or (r["src_kind"] == "namedtuple" and inner.slice.value == src_names.index(nm_))))
             if not ok:
                 res.add(Finding("C17", "KIND.converter-field", MCP, "ModelCoercerProvider", f"{ident}: {nm_} <- {norm(e)[:40] if e is not None else None}",
                                 f"converter {ident}: destination field `{nm_}` is not copied from the same-named source field "
